@@ -5,7 +5,7 @@ From Verif Require Import PsbtModel PsbtLemmas PsbtReach PsbtAtomic.
 
 (* [st'] is [st] with some non-final inputs replaced by their finalized form *)
 Definition fo (a a' : pinput) : Prop :=
-  a' = a \/ (is_final a = false /\ exists ku s w, a' = cleared ku a s w).
+  a' = a \/ (is_final a = false /\ exists s w, a' = cleared a s w).
 
 Definition fo_state (st st' : psbt) : Prop :=
   p_tx st' = p_tx st /\ p_ntx st' = p_ntx st /\ length (p_inputs st') = length (p_inputs st) /\
@@ -22,11 +22,10 @@ Section Idem.
   Variable sig_flag : N -> option N.
   Variable sighash_ecdsa : N -> option N.
   Variable inp_mall : bool -> bool.
-  Variable keep_unknown : bool.
 
-  Notation stepM := (step try_input interp_check desc_info sig_flag sighash_ecdsa inp_mall keep_unknown).
-  Notation finalize_inputM := (finalize_input try_input keep_unknown).
-  Notation specM := (finalize_input_spec try_input keep_unknown).
+  Notation stepM := (step try_input interp_check desc_info sig_flag sighash_ecdsa inp_mall).
+  Notation finalize_inputM := (finalize_input try_input).
+  Notation specM := (finalize_input_spec try_input).
 
   (* A successful satisfaction is never (empty scriptSig, empty witness): otherwise the
      code stores None/None, i.e. an input that lost its data and is not final. *)
@@ -44,7 +43,7 @@ Section Idem.
   Hypothesis Hne : try_nonempty.
   Hypothesis Hst : try_stable.
 
-  Lemma cleared_final a s w st i m : try_input st i m = TOk s w -> is_final (cleared keep_unknown a s w) = true.
+  Lemma cleared_final a s w st i m : try_input st i m = TOk s w -> is_final (cleared a s w) = true.
   Proof.
     intros H. destruct (Hne _ _ _ _ _ H) as [E|E]; unfold is_final; simpl.
     - destruct (nz s); [reflexivity|congruence].
@@ -65,7 +64,7 @@ Section Idem.
 
   Lemma pass_fixed m idxs : forall st errs,
     (forall k, In k idxs -> settled st m k) ->
-    fin_mut_loop try_input keep_unknown m idxs st errs = (st, errs ++ errs_of st m idxs, false).
+    fin_mut_loop try_input m idxs st errs = (st, errs ++ errs_of st m idxs, false).
   Proof.
     induction idxs as [|i r IH]; intros st errs H; simpl.
     - now rewrite app_nil_r.
@@ -79,7 +78,7 @@ Section Idem.
 
   Lemma first_pass m idxs : NoDup idxs -> forall st errs st' es p,
     (forall k, In k idxs -> k < length (p_inputs st)) ->
-    fin_mut_loop try_input keep_unknown m idxs st errs = (st', es, p) ->
+    fin_mut_loop try_input m idxs st errs = (st', es, p) ->
     p = false /\ fo_state st st' /\
     (forall k, ~ In k idxs -> nth_error (p_inputs st') k = nth_error (p_inputs st) k) /\
     es = errs ++ errs_of st' m idxs /\
@@ -101,7 +100,7 @@ Section Idem.
         assert (Hfin : exists a1, nth_error (p_inputs st1) i = Some a1 /\ is_final a1 = true /\ fo a a1).
         { destruct Hcase as [[Hf ->]|(Hf & s & w & Ht & ->)].
           - exists a. repeat split; auto. left; auto.
-          - exists (cleared keep_unknown a s w). split. simpl. eapply nth_set_nth_eq; eauto.
+          - exists (cleared a s w). split. simpl. eapply nth_set_nth_eq; eauto.
             split. eapply cleared_final; eauto. right. split; auto. eauto. }
         destruct Hfin as (a1 & Ha1 & Hf1 & Hfo1).
         split; auto. split; [|split; [|split]].
@@ -110,9 +109,9 @@ Section Idem.
           { destruct Hcase as [[_ ->]|(_ & s & w & _ & ->)]; simpl in *; congruence. }
           intros k b Hb. destruct (Nat.eq_dec k i) as [->|Hk].
           -- exists a1. rewrite Hi'. split; auto. congruence.
-          -- rewrite <- (finalize_input_other try_input keep_unknown _ _ _ _ k Hfi Hk) in Hb. apply P; auto.
+          -- rewrite <- (finalize_input_other try_input _ _ _ _ k Hfi Hk) in Hb. apply P; auto.
         * intros k Hk. rewrite Hout by (intro; apply Hk; right; auto).
-          apply (finalize_input_other try_input keep_unknown _ _ _ _ k Hfi). intro; subst; apply Hk; left; auto.
+          apply (finalize_input_other try_input _ _ _ _ k Hfi). intro; subst; apply Hk; left; auto.
         * rewrite Hes. simpl. rewrite Hi', Ha1, Hf1. reflexivity.
         * intros k [<-|Hk]; auto. exists a1. rewrite Hi'. auto.
       + destruct S as (a & Ha & Hf & Ht).
@@ -133,7 +132,7 @@ Section Idem.
     stepM st (Finalize m) = (st', r) -> stepM st' (Finalize m) = (st', r).
   Proof.
     intros st m st' r H. simpl in *. unfold finalize_mut in *.
-    destruct (fin_mut_loop try_input keep_unknown m (seq 0 (length (p_inputs st))) st []) as [[st1 es] p] eqn:L.
+    destruct (fin_mut_loop try_input m (seq 0 (length (p_inputs st))) st []) as [[st1 es] p] eqn:L.
     assert (Hlt : forall k, In k (seq 0 (length (p_inputs st))) -> k < length (p_inputs st))
       by (intros k Hk; apply in_seq in Hk; lia).
     destruct (first_pass m _ (seq_NoDup _ _) _ _ _ _ _ Hlt L) as (-> & Hfo & _ & Hes & Hset).
@@ -153,7 +152,7 @@ Section Idem.
     - pose proof (specM st i (inp_mall m)) as S.
       destruct (finalize_inputM st i (inp_mall m)) as [st1|e|] eqn:Hfi.
       + inversion H; subst.
-        rewrite (sreach_length _ _ (finalize_input_sreach _ _ _ _ _ _ Hfi)).
+        rewrite (sreach_length _ _ (finalize_input_sreach _ _ _ _ _ Hfi)).
         destruct (Nat.leb_spec (length (p_inputs st)) i); [lia|].
         destruct S as (a & Ha & [[Hf ->]|(Hf & s & w & Ht & ->)]).
         * rewrite Hfi. reflexivity.
@@ -170,7 +169,7 @@ End Idem.
    code stores None/None; the input has lost its data and is tried again. *)
 Example idempotent_needs_nonempty :
   exists (try_input : psbt -> nat -> bool -> tryres) st,
-    let f := fun s => finalize_mut try_input false s false in
+    let f := fun s => finalize_mut try_input s false in
     fst (f (fst (f st))) <> fst (f st) \/ snd (f (fst (f st))) <> snd (f st).
 Proof.
   pose (blank := mkIn None None [] None None None [] None None [] [] [] [] None [] [] [] None None [] []).
@@ -184,7 +183,7 @@ Qed.
 (* (ii) try_stable: an oracle whose verdict on input 0 depends on input 1's key-origin map *)
 Example idempotent_needs_stability :
   exists (try_input : psbt -> nat -> bool -> tryres) st,
-    let f := fun s => finalize_mut try_input false s false in
+    let f := fun s => finalize_mut try_input s false in
     fst (f (fst (f st))) <> fst (f st).
 Proof.
   pose (blank := mkIn None None [] None None None [] None None [] [] [] [] None [] [] [] None None [] []).
